@@ -16,7 +16,16 @@ META = {
             "nothing is executed; otherwise exactly the reachable rules execute, once each, dependencies first, "
             "independent of declaration order.  The model is tied to the code on every run by the real "
             "caco3.Builder building generated workspaces (all graphs on <=3 rules, every declaration order of "
-            "small rule sets, random graphs up to 40 rules with sub-build trees), compared inside Coq.",
+            "small rule sets, random graphs up to 40 rules with sub-build trees), compared inside Coq; every "
+            "workspace is built twice on the same Builder (the second call must report the same errors and, with "
+            "AlwaysRebuild, execute the same rules in the same order: loader tables, tracer and memo are per "
+            "call); sequences of Build calls on one Builder (good targets, targets over a dangling dependency, "
+            "over a cycle, again, other targets) are judged call by call; the lifetime of the loader is explicit "
+            "in the model (Caco/LoadSession.v: with the loader made per call - decided from the translator's "
+            "extraction of the current source - every call of a sequence is the call alone; refuted for a kept "
+            "loader), cycles through output files have their own theorem, and after a fatal crash a probe "
+            "process tells whether the stack ran away in the loader or in the build walk after the loader had "
+            "accepted the graph (impl:cycle-not-reported).",
     "note": "Trusted: Coq kernel + vm_compute; harness/cmd/c11 + checks/c11.py comparison and error-message "
             "projection; name resolution (makeRelPath/makePath) is C12's subject and enters as resolved names; "
             "JSONx parsing, os.Lstat and the file system are modelled, not verified; only file_set and bundle "
@@ -27,7 +36,7 @@ META = {
 
 MODEL = ["theories/Caco/LoadCorr.vo"]
 PROOFS = ["theories/Props/C11.vo"]
-STATEMENT_FILES = ["theories/Props/C11.v", "theories/Caco/LoadGen.v"]
+STATEMENT_FILES = ["theories/Props/C11.v", "theories/Caco/LoadGen.v", "theories/Caco/LoadSessionGen.v"]
 
 
 # ------------------------------------------------------------ case -> Coq
@@ -250,6 +259,19 @@ def impl_oracle(c):
     if o.get("crash"):
         kind = "stack-overflow" if "stack exceeds" in o["crash"] else \
                ("timeout" if "timeout" in o["crash"] else "crash")
+        if o.get("crash_in") == "build":
+            # Build reaches buildNode only after loadNodes returned without an error: the loader
+            # accepted these build files, and the failure is the build walk's
+            verdict, reasons, _, _ = spec(c)
+            if verdict == "err":
+                what = "cycle" if "cycle" in reasons else reasons[0]
+                return ("impl:%s-not-reported" % what if what == "cycle" else "impl:error-not-reported:" + what,
+                        "build files with %s reachable from the targets %s were loaded WITHOUT an error; the "
+                        "build walk then ran away inside Builder.buildNode (%s) after executing %s"
+                        % (",".join(reasons), c["targets"], kind, o.get("exec") or "nothing"))
+            return ("impl:build-does-not-terminate:" + kind,
+                    "loading accepted a sound set of build files, then the build walk did not terminate "
+                    "normally: %s" % o["crash"][:200])
         return ("impl:load-does-not-terminate:" + kind,
                 "loading did not terminate normally: %s" % o["crash"][:200])
     verdict, reasons, reach, nodes = spec(c)
@@ -257,6 +279,10 @@ def impl_oracle(c):
     exe = o.get("exec") or []
     if verdict == "err":
         if not errs:
+            if "cycle" in reasons:
+                return ("impl:cycle-not-reported",
+                        "build files with a dependency cycle reachable from the targets %s were loaded without an "
+                        "error (executed: %s)" % (c["targets"], exe))
             return ("impl:error-not-reported:" + reasons[0],
                     "build files with %s were loaded without an error" % ",".join(reasons))
         if exe:
@@ -281,6 +307,60 @@ def impl_oracle(c):
             if pos[d] > pos[n]:
                 return ("impl:dependency-after-dependent", "%s executed before its dependency %s" % (n, d))
     return None
+
+
+def again_oracle(c):
+    """A second Build call with the same targets on the same Builder: nothing a Builder holds between
+    calls (loader tables, tracer, memo) may change the verdict.  Returns (key, text) or None."""
+    o = c["obs"]
+    if not o.get("again"):
+        return None
+    e1 = [(e["k"], e.get("n"), tuple(e.get("stack") or [])) for e in o.get("errs") or []]
+    e2 = [(e["k"], e.get("n"), tuple(e.get("stack") or [])) for e in o.get("errs2") or []]
+    if e1 != e2:
+        return ("impl:second-build-on-same-builder-differs:errors",
+                "the first Build call reported %s, the second call on the same Builder %s"
+                % (json.dumps(o.get("errs") or [])[:200], json.dumps(o.get("errs2") or [])[:200]))
+    if e1:
+        loaderr = any(k != "other" for k, _, _ in e1)
+        if loaderr and o.get("exec2"):
+            return ("impl:second-build-on-same-builder-differs:built-despite-error",
+                    "the second call executed %s although loading failed" % o["exec2"][:5])
+        return None
+    if c.get("always"):
+        if (o.get("exec2") or []) != (o.get("exec") or []):
+            return ("impl:second-build-on-same-builder-differs:order",
+                    "with AlwaysRebuild the first call executed %s, the second call on the same Builder %s"
+                    % (o.get("exec"), o.get("exec2")))
+    elif o.get("exec2"):
+        return ("impl:second-build-on-same-builder-differs:rebuilt",
+                "nothing changed, but the second call on the same Builder executed %s" % o["exec2"][:8])
+    return None
+
+
+def expand_seq(cases):
+    """A case with a sequence of Build calls on one Builder becomes one case per call (same workspace,
+    that call's targets and observation): what a Builder holds between calls is no part of the property,
+    so the oracle and the model are evaluated per call.  After a crash only the crashing call is known."""
+    out = []
+    for c in cases:
+        seq = c.get("seq") or []
+        calls = [c["targets"], c["targets"]] + seq
+        o = c["obs"]
+        if not seq and not (o.get("crash") and o.get("crash_call")):
+            out.append(c)
+            continue
+        if o.get("crash"):
+            k = o.get("crash_call") or 0
+            v = dict(c, targets=calls[k], call=k, on_one_builder_after=calls[:k])
+            out.append(v)
+            continue
+        out.append(dict(c, call=0, on_one_builder_after=[]))
+        for k, m in enumerate(o.get("more") or []):
+            vo = {"errs": m.get("errs") or [], "exec": m.get("exec") or [],
+                  "tree_files": o.get("tree_files"), "tree_dirs": o.get("tree_dirs")}
+            out.append(dict(c, targets=seq[k], obs=vo, call=k + 2, on_one_builder_after=calls[:k + 2]))
+    return out
 
 
 def is_trivial(c):
@@ -342,7 +422,7 @@ def run(ck):
     cases = []
     if binp:
         t = time.time()
-        cases = run_harness(ck, binp, 12)
+        cases = expand_seq(run_harness(ck, binp, 12))
         ck.timings["harness"] = round(time.time() - t, 2)
 
     # implementation-only oracle
@@ -356,6 +436,13 @@ def run(ck):
             ck.violation(key, why, {"case": c, "observed": c["obs"],
                                     "expected": "terminates; error iff unnamed/duplicate/cycle/dangling; "
                                                 "else exactly the reachable rules, once, dependencies first"})
+        bad = again_oracle(c)
+        if bad:
+            key, why = bad
+            ck.violation(key, why, {"case": c, "observed": c["obs"],
+                                    "expected": "a second Build call with the same targets on the same Builder "
+                                                "reports the same errors; with AlwaysRebuild it executes the same "
+                                                "rules in the same order, otherwise nothing"})
         if c.get("group"):
             groups.setdefault(c["group"], []).append(c)
     for g, cs in groups.items():
